@@ -587,6 +587,27 @@ def r3(ctx, bearing):
                 ctx.ob("R3", "check_cyclic/%s" % v, hit is not None,
                        ("arm %s recurses into its sub-rules" % v) if hit else "Rule::check_cyclic does not descend into %s (%s): a utility can require itself on the same node without being rejected -> unbounded recursion at match time" % (v, why),
                        where=cc.loc())
+    # every cycle check starts with a FRESH visited set: "already followed" is only meaningful within one walk from one utility — a set
+    # kept across insertions makes a later walk skip a utility whose way back was registered in between (a cycle over two utils maps is
+    # then accepted and overflows the stack at match time)
+    walkers = prog.find_fns(r"^ast_grep_config::rule::(Rule::<L>::check_cyclic_impl|referent_rule::ReferentRule::<L>::refers_to|nth_child::NthChild::<L>::check_cyclic)$")
+    members = set()
+    for w in walkers:
+        members |= {g.id for g in prog.family(w)}
+    n_entry = 0
+    for w in walkers:
+        for c in prog.call_sites.get(w.id, []):
+            f = c.fn
+            if f.id in members or (f.root or "") in {x.id for x in walkers} or not c.args or c.bb not in f.live_blocks:
+                continue
+            n_entry += 1
+            roots = deep_roots(prog, f, c.args[-1], TRANSPARENT | {"deref_mut", "as_mut", "borrow_mut"})
+            fresh = bool(roots) and all(o.kind == "call" and o.ref.name in ("new", "default", "with_capacity") and "HashSet" in (o.ref.best + f.locals[o.ref.dest[0]]) for o in roots)
+            ctx.ob("R3", "cycle check started in %s uses a fresh visited set" % f.id, fresh,
+                   "visited = HashSet::new() created for this walk" if fresh else
+                   "the visited set handed to the cycle walk comes from %s: utilities followed by an EARLIER check are skipped, so a cycle closed by a utility registered later "
+                   "(rule utils + rewriter utils share one registration) is not seen" % sorted({describe_origin(f, o) for o in roots})[:3], where=f.loc(c.line))
+    ctx.floor("R3", "entry points of the cycle walk", n_entry, 1)
     vd = ctx.anchor("R3", r"^ast_grep_config::rule::deserialize_env::visit_dependent_rule_ids$")
     if vd:
         # fields of SerializableRule read by the visitor family
